@@ -20,10 +20,12 @@ CHECK_FN = 'MMergeKeep.check_case'
 SHARD_SIZE = 12
 CASE_TIMEOUT = 60
 RULE = ('case = 1..4 datasets over a small shared key universe (same key, different value in different inputs), input '
-        'folders named so that the listing order is / is not the alphabetical order of their paths, nested rigs (members '
+        'folders named so that the listing order is / is not the alphabetical order of their paths, record files stored as '
+        'regular files / relative symlinks / absolute symlinks / chains of relative links, nested rigs (members '
         'that are rig ids, depth <= 3, ids mounted directly and through a sub-rig, shuffled insertion order), each of '
         'the 16 modelled parts missing independently in each input, a skip list, a transfer strategy, tar or folder '
-        'storage per input/feature kind/type, library or tool entry point. Enumerated: every singleton skip list on '
+        'storage per input/feature kind/type (tar members spelled as kapture writes them or as users pack a folder: '
+        './x, folder members, /./, //), library or tool entry point. Enumerated: every singleton skip list on '
         'both entry points, every strategy x 1..3 inputs, every presence pattern of every part over 3 inputs (thorough; '
         'quick: over 2 inputs + first-missing patterns), metadata conflicts, missing files; plus random cases. '
         'Non-trivial = at least two inputs share a key with different values or a part is missing in the first '
@@ -42,7 +44,10 @@ ASSUMPTIONS = ['points3d / observations are left absent in every input (their me
                '(kapture_from_dir asserts records_camera is not None otherwise)',
                'wifi / bluetooth records with zero signals are not generated (flatten() yields nothing for them)',
                'with strategy move the input folders lose the moved record files by design; all other input files must '
-               'stay byte-identical']
+               'stay byte-identical',
+               'record files that are relative symlinks keep resolving after move only because input and output folders '
+               'are siblings in the harness (shutil.move renames the link itself); the merge runs from a working '
+               'directory that is neither an input nor the output folder']
 EXHAUSTIVE = {'quick': False, 'thorough': False}
 
 # ---------------------------------------------------------------------------------------------- vocabulary
@@ -184,6 +189,8 @@ def _gen_input(rng, i, presence, tool, dens=None, tar_p=0.4):
             if rng.random() < 0.75:
                 imgs = [n for n in img_universe if rng.random() < dens]
                 coll[ty] = {'meta': list(META[(kind, ty)]), 'images': imgs, 'tar': rng.random() < tar_p}
+                if coll[ty]['tar']:
+                    coll[ty]['tar_style'] = rng.choice(TAR_STYLES + ['kapture'])
         d[kind] = coll
     if not presence.get('matches', True) or (tool and not cam_names):
         d['matches'] = None
@@ -198,8 +205,11 @@ def _gen_input(rng, i, presence, tool, dens=None, tar_p=0.4):
                             prs.append([b, a] if (not tool and rng.random() < 0.15) else [a, b])
                 if prs or not tool:
                     coll[ty] = {'pairs': prs, 'tar': rng.random() < tar_p}
+                    if coll[ty]['tar']:
+                        coll[ty]['tar_style'] = rng.choice(TAR_STYLES + ['kapture'])
         d['matches'] = coll
     d['missing_files'] = []
+    d['rec_storage'] = rng.choice(['file', 'file', 'file', 'rel_link', 'rel_link', 'abs_link', 'chain'])
     return d
 
 
@@ -306,6 +316,27 @@ def gen_cases(rng, tier):
             for d, rg in zip(ins, rig_lists):
                 d['rigs'] = json.loads(json.dumps(rg))
             _mk(cases, mode, ins, [], 'skip', origin='nested-rigs-' + name)
+    # 5a''. inputs whose record files are symlinks (left by an earlier import / merge with a link strategy): relative,
+    #       absolute, chains; every strategy; the content read through the output path must be the source content
+    for storage in REC_STORAGES[1:]:
+        for st in STRATEGIES:
+            modes = ('lib', 'tool') if st in ('link_absolute', 'link_relative') else ('lib',)
+            for mode in modes:
+                ins = inputs(2, mode == 'tool', dens=0.8)
+                ins[0]['rec_storage'] = storage
+                ins[1]['rec_storage'] = storage if st != 'copy' else 'file'
+                _mk(cases, mode, ins, [], st, origin='linked-record-files')
+    # 5a'''. tar archives packed by users (`tar -cf keypoints.tar -C folder .`): member names spelled ./x, with folder
+    #        members, with /./ or //; every feature kind; the files must come out byte-identical
+    for style in TAR_STYLES[1:]:
+        for mode in ('lib', 'tool'):
+            ins = inputs(2, mode == 'tool', dens=0.9)
+            for d in ins:
+                for kind in FEAT_DIR:
+                    for f in (d[kind] or {}).values():
+                        f['tar'] = True
+                        f['tar_style'] = style
+            _mk(cases, mode, ins, [], 'copy', origin='user-packed-tar')
     # 5b. the same dataset given twice: the union is the dataset itself
     for st in ('copy', 'move'):
         one = inputs(1, False, dens=0.8)
@@ -412,6 +443,48 @@ def _write(path, data):
         f.write(data)
 
 
+REC_STORAGES = ['file', 'rel_link', 'abs_link', 'chain']
+# how the members of a tar-stored feature folder are spelled: as kapture writes them, or as users pack a folder
+TAR_STYLES = ['kapture', 'dot', 'dotdir', 'dotslash', 'dslash']
+
+
+def _tar_spelling(member, style):
+    """same member, other spelling of its name (kapture's readers normalise member names)"""
+    if style == 'kapture':
+        return member
+    if style in ('dot', 'dotdir'):
+        return './' + member
+    if style == 'dotslash':
+        return './' + member.replace('/', '/./', 1) if '/' in member else '././' + member
+    if style == 'dslash':
+        return member.replace('/', '//', 1) if '/' in member else './/' + member
+    raise ValueError(style)
+
+
+def _write_record(path, data, storage, base, i, name):
+    """a record file of input i: a regular file, or (what an earlier import / merge with a link strategy leaves) a
+    relative symlink, an absolute symlink, or a chain relative link -> relative link -> file.  The real file
+    lives in a folder of its own (base/origin<i>), outside every input and output folder."""
+    if storage == 'file' or os.path.exists(path) or os.path.islink(path):
+        if not os.path.islink(path):
+            _write(path, data)
+        return
+    origin = os.path.join(base, f'origin{i}', 'files', name)
+    _write(origin, data)
+    os.makedirs(os.path.dirname(path), exist_ok=True)
+    if storage == 'abs_link':
+        os.symlink(origin, path)
+    elif storage == 'rel_link':
+        os.symlink(os.path.relpath(origin, os.path.dirname(path)), path)
+    elif storage == 'chain':
+        mid = os.path.join(base, f'origin{i}', 'older_merge', 'sensors', 'records_data', name)
+        os.makedirs(os.path.dirname(mid), exist_ok=True)
+        os.symlink(os.path.relpath(origin, os.path.dirname(mid)), mid)
+        os.symlink(os.path.relpath(mid, os.path.dirname(path)), path)
+    else:
+        raise ValueError(storage)
+
+
 def _build_dir(d, i, root):
     """writes the csv files with kapture's own writer and the data files; returns (kapture object, store)"""
     from kapture.io.csv import kapture_to_dir
@@ -426,8 +499,8 @@ def _build_dir(d, i, root):
             if rel in missing:
                 continue
             data = _content(i, rel, 1)
-            _write(os.path.join(root, rel), data)
-            store['rec'][name] = hashlib.sha1(data).hexdigest()[:12]
+            _write_record(os.path.join(root, rel), data, d.get('rec_storage') or 'file', os.path.dirname(root), i, name)
+            store['rec'][name] = hashlib.sha1(data).hexdigest()[:12]     # the content reachable under that name
     for kind in ('keypoints', 'descriptors', 'global_features', 'matches'):
         for ty, f in (d[kind] or {}).items():
             base = f'{FEAT_DIR[kind]}/{ty}'
@@ -439,15 +512,26 @@ def _build_dir(d, i, root):
                 unit = ITEMSIZE[f['meta'][1]] * f['meta'][2]
                 members = [(f'{n}{FEAT_EXT[kind]}', n) for n in f['images']]
             tar = None
+            style = f.get('tar_style') or 'kapture'
             if f.get('tar'):
                 tar = tarfile.TarFile(os.path.join(root, base, kind + '.tar'), mode='w')
+                if style == 'dotdir':            # like `tar -cf x.tar -C <folder> .`: folder members come along
+                    folders = {'.'}
+                    for member, _ in members:
+                        parts = member.split('/')[:-1]
+                        folders.update('./' + '/'.join(parts[:j + 1]) for j in range(len(parts)))
+                    for name in sorted(folders):
+                        info = tarfile.TarInfo(name)
+                        info.type = tarfile.DIRTYPE
+                        info.mode = 0o755
+                        tar.addfile(info)
             for member, key in members:
                 rel = f'{base}/{member}'
                 if rel in missing:
                     continue
                 data = _content(i, rel, unit)
                 if tar is not None:
-                    info = tarfile.TarInfo(member)
+                    info = tarfile.TarInfo(_tar_spelling(member, style))
                     info.size = len(data)
                     tar.addfile(info, io.BytesIO(data))
                 else:
@@ -637,7 +721,7 @@ def _classify_exc(e, strategy):
 
 def _dir_names(case):
     names = case.get('dir_names') or [f'in{i}' for i in range(len(case['inputs']))]
-    assert len(set(names)) == len(case['inputs']) and not ({'out', 'cwd'} & set(names))
+    assert len(set(names)) == len(case['inputs']) and not any(n in ('out', 'cwd') or n.startswith('origin') for n in names)
     return names
 
 
@@ -659,7 +743,8 @@ def run_impl(case, ctx):
     out = os.path.join(base, 'out')
     strategy = TransferAction[case['strategy']]
     move = case['strategy'] == 'move'
-    trees_before = [_tree(r, move) for r in dirs]
+    origins = [os.path.join(base, f'origin{i}') for i in range(len(dirs)) if os.path.isdir(os.path.join(base, f'origin{i}'))]
+    trees_before = [_tree(r, move) for r in dirs] + [_tree(r) for r in origins]
     obs = {'stores': stores}
     exc = None
     merged = None
@@ -706,7 +791,7 @@ def run_impl(case, ctx):
         cwd_clean = os.listdir(private_cwd) == []
     finally:
         os.chdir(old_cwd)
-    trees_after = [_tree(r, move) for r in dirs]
+    trees_after = [_tree(r, move) for r in dirs] + [_tree(r) for r in origins]
     obs['dirs_unchanged'] = trees_before == trees_after
     if not obs['dirs_unchanged']:
         obs['dirs_diff'] = _first_diff(trees_before, trees_after)
@@ -852,6 +937,8 @@ def oracle(case, obs):
     for name, h in want_rec.items():
         if name not in files['rec']:
             return f'record file {name} listed by the inputs was not transferred'
+        if files['rec'][name] is None and h is not None:
+            return f'record file {name} of the merge is a dangling link: the content of the earliest input that lists it is not reachable'
         if files['rec'][name] != h:
             return f'record file {name} does not have the content of the earliest input that lists it'
     for name in files['rec']:
@@ -992,11 +1079,16 @@ def classify(case, obs):
     sk = 'skip0' if not case['skip'] else ('skip1' if len(case['skip']) == 1 else 'skipN')
     flags = [bool(f.get('tar')) for d in case['inputs'] for k in FEAT_DIR for f in (d[k] or {}).values()]
     store = 'nofeat' if not flags else ('tar' if all(flags) else ('mixed' if any(flags) else 'dir'))
+    if any(f.get('tar') and (f.get('tar_style') or 'kapture') != 'kapture'
+           for d in case['inputs'] for k in FEAT_DIR for f in (d[k] or {}).values()):
+        store += '(user-packed)'
     res = obs['outcome'] if obs['outcome'] == 'ret' else 'raise-' + obs['exc_kind']
     names = _dir_names(case)
     order = 'listed=alphabetical' if names == sorted(names) else 'listed!=alphabetical'
     nest = 'nested-rigs' if any(r[1].startswith('rig') for d in case['inputs'] for r in (d['rigs'] or [])) else 'flat-rigs'
-    return f'{case["mode"]}/n={len(case["inputs"])}/{case["strategy"]}/{sk}/{store}/{order}/{nest}/{res}'
+    rs = sorted({(d.get('rec_storage') or 'file') for d in case['inputs']
+                 if any(d[p] for p in REC_NAMES)}) or ['norec']
+    return f'{case["mode"]}/n={len(case["inputs"])}/{case["strategy"]}/{sk}/{store}/{order}/{nest}/rec={"+".join(rs)}/{res}'
 
 
 def describe(case, obs):
@@ -1023,6 +1115,11 @@ def shrink(case):
             del c['inputs'][i]
             if c.get('dir_names'):
                 del c['dir_names'][i]
+            yield c
+    for i, d in enumerate(case['inputs']):
+        if (d.get('rec_storage') or 'file') != 'file':
+            c = clone()
+            c['inputs'][i]['rec_storage'] = 'file'
             yield c
     if case.get('dir_names') and case['dir_names'] != sorted(case['dir_names']):
         c = clone()
@@ -1063,6 +1160,10 @@ def shrink(case):
                         c = clone()
                         tgt = c['inputs'][i][p][ty]
                         tgt['pairs' if p == 'matches' else 'images'] = members[:1]
+                        yield c
+                    if f.get('tar') and (f.get('tar_style') or 'kapture') != 'kapture':
+                        c = clone()
+                        c['inputs'][i][p][ty]['tar_style'] = 'kapture'
                         yield c
                     if f.get('tar'):
                         c = clone()
